@@ -190,6 +190,45 @@ let d_cli = function
         cli_omit_version_comment = d_bool omit }
   | _ -> raise (Bad "cli args")
 
+(* ---------- script AST and object universe (ld correspondence) ---------- *)
+
+let d_expr = function
+  | A "dot" -> EDot
+  | L [A "hex8"; n] -> EHex8 (d_n n)
+  | L [A "raw"; s] -> ERaw (d_str s)
+  | L [A "sym"; s] -> ESym (d_str s)
+  | L [A "addr"; s] -> EAddr (d_str s)
+  | L [A "abssub"; a; b] -> EAbsSub (d_str a, d_str b)
+  | L [A "sub"; a; b] -> ESub (d_str a, d_str b)
+  | L [A "dotplus"; z] -> EDotPlus (d_z z)
+  | _ -> raise (Bad "expr")
+
+let rec d_stmt = function
+  | A "blank" -> SBlank
+  | L [A "comment"; s] -> SComment (d_str s)
+  | L [A "assign"; p; h; r; sym; e] -> SAssign (d_bool p, d_bool h, d_bool r, d_str sym, d_expr e)
+  | L [A "align"; sym; n] -> SAlign (d_str sym, d_n n)
+  | L [A "max"; sym; o] -> SMaxSelf (d_str sym, d_str o)
+  | L [A "romadd"; s] -> SRomAdd (d_str s)
+  | L [A "dotadd"; n] -> SDotAdd (d_n n)
+  | L [A "fill"; n] -> SFill (d_n n)
+  | L [A "input"; k; path; m; sect; w] -> SInput (d_bool k, d_str path, d_opt d_str m, d_str sect, d_bool w)
+  | L [A "outsec"; name; addr; at; noload; sub; body] ->
+      SOutSec (d_str name, d_opt d_expr addr, d_opt d_str at, d_bool noload, d_opt d_n sub, d_list d_stmt body)
+  | L [A "single"; s] -> SSingleEntry (d_str s)
+  | L [A "discard"; pats; w] -> SDiscard (d_list d_str pats, d_bool w)
+  | L [A "sections"; body] -> SSections (d_list d_stmt body)
+  | L [A "entry"; s] -> SEntry (d_str s)
+  | L [A "extern"; s] -> SExtern (d_str s)
+  | L [A "assert"; c; m] -> SAssert (d_str c, d_str m)
+  | _ -> raise (Bad "stmt")
+
+let d_usec = function
+  | L [A "R"; path; member; name; size; align; nobits; marker] ->
+      { u_path = d_str path; u_member = d_opt d_str member; u_name = d_str name; u_size = d_z size;
+        u_align = d_z align; u_nobits = d_bool nobits; u_marker = d_str marker }
+  | _ -> raise (Bad "usec")
+
 let () =
   let extra = try Sys.getenv "SLINKY_DRIVER_EXTRA" with Not_found -> "" in
   ignore extra;
@@ -203,6 +242,9 @@ let () =
             print_string id; print_char '\t'; print_string (ostr r); print_char '\n'
         | L [A "cli"; A id; sd; args] ->
             let r = jcli (cli_run (d_document sd) (d_cli args)) in
+            print_string id; print_char '\t'; print_string (ostr r); print_char '\n'
+        | L [A "link"; A id; script; univ; ext] ->
+            let r = run_link (d_list d_stmt script) (d_list d_usec univ) (d_list (d_pair d_str d_z) ext) in
             print_string id; print_char '\t'; print_string (ostr r); print_char '\n'
         | _ -> raise (Bad "unknown case form")
       end
